@@ -97,11 +97,20 @@ pub fn alphabet(full: bool) -> Vec<Letter> {
   }
   // OAM DMA started and the CPU halted while it is in flight (nothing in this fragment wakes it)
   v.push(l("dma-halt", &[0x3E, 0xC1, 0xE0, 0x46, 0x76, 0x00]));
+  // OAM DMA started and execution simply continuing; the JR ends the block, so that whatever
+  // follows is a block of its own that runs with the transfer in flight
+  v.push(l("dma-start", &[0x3E, 0xC1, 0xE0, 0x46, 0x18, 0x00]));
   // routine copied to WRAM (C400) and called there: interpreter path inside a jit build
   v.push(l("wram-code", &[0x21, 0x60, 0x0E, 0x11, 0x00, 0xC4, 0x06, 0x0C, 0x2A, 0x12, 0x13, 0x05, 0x20, 0xFA, 0x21, 0x30, 0xC0, 0xCD, 0x00, 0xC4]));
   // bank switch + far call
-  for k in vec![1u8, 2, 3] {
+  // (4 = the bank count of the image: reduced to bank 0, whose first bytes are INC H; RET)
+  for k in vec![1u8, 2, 3, 4] {
     v.push(l(&format!("bank-call{}", k), &[0x3E, k, 0xEA, 0x00, 0x21, 0xCD, 0x00, 0x40]));
+  }
+  // bank switch + a fixed-bank subroutine that reads data from the switchable bank by an
+  // absolute address (the same translated block must see the bank mapped *now*)
+  for k in vec![2u8, 3] {
+    v.push(l(&format!("bank-peek{}", k), &[0x3E, k, 0xEA, 0x00, 0x21, 0xCD, 0x10, 0x0E]));
   }
   // serial output of a register
   v.push(l("serial-a", &[0x3E, 0x41, 0xE0, 0x01, 0x3E, 0x81, 0xE0, 0x02]));
@@ -164,6 +173,9 @@ pub fn base_image() -> Vec<u8> {
   // subroutines
   let sub = [0x04, 0xE5, 0x21, 0x00, 0xC1, 0x34, 0xE1, 0xC9]; // INC B; PUSH HL; LD HL,C100; INC (HL); POP HL; RET
   img[SUBS..SUBS + sub.len()].copy_from_slice(&sub);
+  // 0x0E10: LD A,(7FFF) [the mapped bank's marker byte]; ADD A,B; LD B,A; LD (C102),A; RET
+  let peek = [0xFA, 0xFF, 0x7F, 0x80, 0x47, 0xEA, 0x02, 0xC1, 0xC9];
+  img[SUBS + 0x10..SUBS + 0x10 + peek.len()].copy_from_slice(&peek);
   // HRAM DMA routine source at 0x0E40: LDH (46),A; LD A,28; L: DEC A; JR NZ,L; RET
   let dma = [0xE0, 0x46, 0x3E, 0x28, 0x3D, 0x20, 0xFD, 0xC9, 0x00, 0x00];
   img[0x0E40..0x0E40 + dma.len()].copy_from_slice(&dma);
